@@ -72,6 +72,15 @@ class Interp:
         self.bad = None
         self.inbuf = b''
         self.ctx = None            # None | 'connect' | 'authorize' | 'run'
+        # operations the library refused locally (their DONE line says so): they never reach the wire, so the packet
+        # attribution below must not wait for them — several requests can be handled in one poll of run(), and then the
+        # W lines of later requests come before the DONE lines of earlier, refused ones
+        self.refused = set()
+        for _, obs in segs:
+            for o in obs:
+                ot = o.split(' ')
+                if ot[0] == 'DONE' and len(ot) >= 4 and ot[2] == 'err' and ot[3] in ('QuotaExceeded', 'MaximumPacketSizeExceeded', 'CodecError'):
+                    self.refused.add(int(ot[1][2:]))
         self.run()
 
     def ev(self, **kw):
@@ -141,10 +150,13 @@ class Interp:
                         want = {3: 'PUBLISH', 8: 'SUBSCRIBE', 10: 'UNSUBSCRIBE', 12: 'PING', 14: 'DISCONNECT'}[t]
                         if pk is not None and t == 3 and pk.get('dup'):
                             owner = 'retransmit'
-                        elif self.fifo and self.fifo[0].kind == want:
-                            owner = self.fifo.pop(0)
                         else:
-                            owner = 'unexpected'
+                            cand = [x for x in self.fifo if x.id not in self.refused]
+                            if cand and cand[0].kind == want:
+                                owner = cand[0]
+                                self.fifo.remove(owner)
+                            else:
+                                owner = 'unexpected'
                     elif t == 6 and pk is not None:
                         owner = self.q2_by_pid.get(pk['pid'], 'unexpected')
                     elif t in (1, 15):
